@@ -5,6 +5,7 @@ from ..runner import Result
 from ..bridge import T, build, quiet, monitor, all_nodes, raw_leaves
 
 from trees import transform, transformconst
+from .. import headrules
 
 ID = 'C15'
 LEVEL = 'exploration'
@@ -18,7 +19,7 @@ DECOR = [lambda s: s, lambda s: s.upper(), lambda s: s.upper() + '-SBJ-1', lambd
 def rule_items():
     """(preset, parent category, listed child category) for every entry of both tables."""
     items = []
-    for preset, table in (('negra', transformconst.HEAD_RULES_NEGRA), ('ptb', transformconst.HEAD_RULES_PTB)):
+    for preset, table in (('negra', headrules.HEAD_RULES_NEGRA), ('ptb', headrules.HEAD_RULES_PTB)):
         for parent in sorted(table):
             listed = []
             for _, prio in table[parent]:
@@ -36,6 +37,7 @@ def plan(tier, seed):
     for i in range(0, len(items), 12):
         chunks.append({'kind': 'rules', 'lo': i, 'hi': min(len(items), i + 12), 'maxlen': maxlen})
     chunks.append({'kind': 'reject'})
+    chunks.append({'kind': 'anyparent', 'maxlen': maxlen})
     return {
         'chunks': chunks,
         'rule': 'NeGra heuristic: every hierarchy over n tokens (<= u unary insertions) x every assignment of '
@@ -156,6 +158,54 @@ def rule_cases(lo, hi, maxlen):
                                'tokens': as_tokens}
 
 
+def anyparent_cases(maxlen):
+    """Every parent category of both pinned tables (incl. those with an empty priority list) and an unknown
+    one, over children none of which is listed: the rule does not say which child is the head, but exactly
+    one child must be marked."""
+    for preset, table in (('negra', headrules.HEAD_RULES_NEGRA), ('ptb', headrules.HEAD_RULES_PTB)):
+        for parent in sorted(table) + ['xyz']:
+            for L in range(1, maxlen + 1):
+                for as_tokens in (True, False):
+                    yield {'preset': preset, 'parent': parent.upper(), 'children': ['zzz', 'qqq', 'zzz', 'qqq'][:L],
+                           'tokens': as_tokens}
+
+
+def check_anyparent(c):
+    out = []
+    mt = rule_tree(c['parent'], c['children'], c['tokens'])
+
+    def bad(kind, detail):
+        out.append({'kind': kind, 'where': 'mark_heads_by_rules', 'case': {'anyparent': c},
+                    'detail': '%s [preset %s, %s -> %s, no listed child]' % (detail, c['preset'], c['parent'], ' '.join(c['children'])),
+                    'what': 'mark_heads_by_rules: ' + kind})
+    try:
+        t = build(mt)
+        r = transform.mark_heads_by_rules(t, mark_heads_preset=c['preset'])
+        probs = monitor(r, mt.n())
+        if probs:
+            bad('ill-formed', '; '.join(probs))
+        else:
+            one_head_invariant(r, bad)
+    except Exception as e:
+        bad('exception', '%s: %s' % (type(e).__name__, e))
+    return out
+
+
+def check_tables():
+    """The repository's tables must still be the pinned ones (category by category)."""
+    out = []
+    for name, pinned, live in (('HEAD_RULES_PTB', headrules.HEAD_RULES_PTB, transformconst.HEAD_RULES_PTB),
+                               ('HEAD_RULES_NEGRA', headrules.HEAD_RULES_NEGRA, transformconst.HEAD_RULES_NEGRA)):
+        for parent in sorted(set(pinned) | set(live)):
+            a = [(d, p.split()) for d, p in pinned.get(parent, [])]
+            b = [(d, p.split()) for d, p in live.get(parent, [])]
+            if a != b:
+                out.append({'kind': 'rule-table', 'where': 'transformconst.' + name, 'case': {'table': name, 'parent': parent},
+                            'detail': 'head rule of %r is %r, the documented rule is %r' % (parent, b, a),
+                            'what': 'head-rule table differs from the documented rules'})
+    return out
+
+
 def check_reject():
     out = []
     mt = rule_tree('NP', ['ART', 'NN'], True)
@@ -177,6 +227,10 @@ def check_case(case):
             return check_negra(case['negra'], case.get('order'))[0]
         if 'rule' in case:
             return check_rule(case['rule'])
+        if 'anyparent' in case:
+            return check_anyparent(case['anyparent'])
+        if 'table' in case:
+            return check_tables()
         return check_reject()
 
 
@@ -222,6 +276,18 @@ def run_chunk(chunk):
                     res.violation(v['kind'], v['where'], v['case'], v['detail'], v['what'])
             if c:
                 res.sample({'mark_heads_by_rules': c})
+        elif chunk['kind'] == 'anyparent':
+            c = None
+            for c in anyparent_cases(chunk['maxlen']):
+                vs = check_anyparent(c)
+                res.evals += 1
+                res.nontrivial += 1
+                res.outcome((repr(c), len(vs)))
+                for v in vs:
+                    res.violation(v['kind'], v['where'], v['case'], v['detail'], v['what'])
+            for v in check_tables():
+                res.violation(v['kind'], v['where'], v['case'], v['detail'], v['what'])
+            res.sample({'one_head_invariant_on': c})
         else:
             vs = check_reject()
             res.evals += 3
